@@ -77,7 +77,8 @@ type clWorld struct {
 	d0, d1  string
 	spacing int64
 	spread  osmomath.Dec
-	scaled  bool // pool is above the accumulator-scaling migration thresholds
+	scaled  bool // pool is above the spread-reward accumulator-scaling migration threshold
+	scaledIncent bool // pool is above the incentive accumulator-scaling migration threshold
 	lps     []chain.Account
 	traders []chain.Account
 	funder  chain.Account
@@ -99,6 +100,11 @@ type clWorld struct {
 	haveLastTick   bool
 	minIncentUptime time.Duration // smallest uptime of any incentive record created so far (0 = none yet)
 	claimsByPos    map[uint64]sdk.Coins
+	// time during which the pool had active liquidity, per incentive record (since the record's creation)
+	liquidTime    map[uint64]time.Duration
+	prevCheckTime time.Time
+	prevLiquidity osmomath.Dec
+	incDust       map[string]*big.Rat // allowance for truncated incentive emissions, per denom
 }
 
 func (w *clWorld) pool() cltypes.ConcentratedPoolExtension {
@@ -164,6 +170,7 @@ func newCLWorld(c *vk.Ctx, r *vk.Rng, hooks clHooks) *clWorld {
 	}
 	k.SetSpreadFactorPoolIDMigrationThreshold(w.ch.Ctx, thr(w.scaled))
 	k.SetIncentivePoolIDMigrationThreshold(w.ch.Ctx, thr(scaledIncent))
+	w.scaledIncent = scaledIncent
 	// authorised uptimes: all six in half of the histories, a seed-chosen subset otherwise
 	w.uptimes = cltypes.SupportedUptimes
 	if r.Bool() {
